@@ -233,7 +233,7 @@ def _run_case(case, rec, mon=None):
     for j, N in enumerate(pick):
         kind = str(rng.choice(gen.SIGNAL_KINDS))
         dt = np.float32 if rng.random() < 0.12 else np.float64
-        x = gen.signal(rng, int(N), kind, dt)
+        x = gen.signal(rng, int(N), kind, dt, views=True)
         x.setflags(write=False)
         try:
             comp.compute_full(x)
